@@ -141,6 +141,9 @@ def stepX (s : DState) (line : String) : DState × Option String :=
     | some n, some f, some e =>
       ({ s with w := { s.w with cfgs := setCfg s.w.cfgs n { filename := f, snapsDir := [], extension := e, update := none } } }, some "cfgrel ok")
     | _, _, _ => bad s line
+  | ["chdir", _] =>
+    -- the test changes its working directory: nothing in the model depends on it (ordinary builds)
+    (s, some "chdir ok")
   | _ => step s line
 
 /-- `stepX` never changes the state on a `jsonfmt` line -/
